@@ -83,6 +83,9 @@ func (p *Parser) ParseFunctionParameters() []*ast.Identifier {
 
 func (p *Parser) ParseReturnStatement() *ast.ReturnStatement {
 	stmt := &ast.ReturnStatement{Token: p.CurrentToken}
+	if !p.IsInFunction() {
+		p.AddError("return outside of a function")
+	}
 	// restricted production: a line break after `return` ends the statement
 	if p.PeekToken.Type != token.SEMICOLON && p.PeekToken.Type != token.EOF && p.PeekToken.Type != token.RBRACE && !p.PeekToken.AfterNewline {
 		p.NextToken()
